@@ -215,13 +215,13 @@ func runSweep(c *vh.Ctx) {
 	base, _, _ := oracleCommon(c, "sweep/probe", uc.HandshakeState.Hello.Raw)
 	for L := 200; L <= 600; L++ {
 		if c.Tier == "quick" {
-			near := (L >= 250 && L <= 262) || (L >= 500 && L <= 518)
-			if !near && L%5 != int(c.Seed%5+5)%5 {
+			near := (L >= 254 && L <= 258) || (L >= 505 && L <= 514)
+			if !near && L%10 != int(c.Seed%10+10)%10 {
 				continue
 			}
 		}
 		for pos := 0; pos < 3; pos++ {
-			if c.Tier == "quick" && pos != L%3 && !(L >= 505 && L <= 513) {
+			if c.Tier == "quick" && pos != L%3 && !(L >= 507 && L <= 512) {
 				continue
 			}
 			key := fmt.Sprintf("sweep/L%d/pos%d", L, pos)
@@ -255,9 +255,9 @@ func runCustom(c *vh.Ctx) {
 	base, _, _ := oracleCommon(c, "custom/probe", uc.HandshakeState.Hello.Raw)
 
 	// AlwaysPadToLen(n) with the unpadded length around n
-	targets := []int{0, 1, 120, 300, 512, 517, 700}
+	targets := []int{0, 300, 517}
 	if c.Tier != "quick" {
-		targets = append(targets, 200, 256, 400, 1000, 1500)
+		targets = append(targets, 1, 120, 200, 256, 400, 512, 700, 1000, 1500)
 	}
 	for _, n := range append(targets, -5) {
 		for _, delta := range []int{-300, -40, -7, -6, -5, -4, -3, -2, -1, 0, 1, 30} {
@@ -290,6 +290,9 @@ func runCustom(c *vh.Ctx) {
 		w bool
 	}{{0, false}, {9, false}, {0, true}, {1, true}, {7, true}, {255, true}, {256, true}, {300, true}} {
 		for pos := 0; pos < 3; pos++ {
+			if c.Tier == "quick" && pos != st.l%3 {
+				continue
+			}
 			key := fmt.Sprintf("manual/%d/%v/pos%d", st.l, st.w, pos)
 			pe := &tls.UtlsPaddingExtension{PaddingLen: st.l, WillPad: st.w}
 			spec := sweepSpec(pos, 40, pe)
@@ -350,11 +353,18 @@ func runCustom(c *vh.Ctx) {
 
 	// two padding extensions: never both on the wire
 	for _, d := range []int{0, 200, 450} {
-		for v := 0; v < 3; v++ {
+		for v := 0; v < 4; v++ {
+			if c.Tier == "quick" && d == 200 {
+				continue
+			}
 			key := fmt.Sprintf("dup/%d/%d", d, v)
 			p1 := &tls.UtlsPaddingExtension{GetPaddingLen: tls.BoringPaddingStyle}
 			p2 := &tls.UtlsPaddingExtension{GetPaddingLen: tls.BoringPaddingStyle}
 			if v == 1 {
+				p2 = &tls.UtlsPaddingExtension{PaddingLen: 3, WillPad: true}
+			}
+			if v == 3 { // both already set to pad, no functor: nothing but the check keeps them apart
+				p1 = &tls.UtlsPaddingExtension{PaddingLen: 5, WillPad: true}
 				p2 = &tls.UtlsPaddingExtension{PaddingLen: 3, WillPad: true}
 			}
 			var spec *tls.ClientHelloSpec
@@ -366,8 +376,9 @@ func runCustom(c *vh.Ctx) {
 			pads := padInfos(spec)
 			uc, err := buildConn(spec, variant{sni: 9, sid: -1}, c.Seed)
 			if err == nil {
+				// accepted: then at most one of them may be on the wire (checked by oracleCommon);
+				// the model (which returns the error) flags the changed behaviour as a mismatch
 				oracleCommon(c, key, uc.HandshakeState.Hello.Raw)
-				c.Fail(key, "spec with two padding extensions was marshalled without error", key, len(uc.HandshakeState.Hello.Raw), "error")
 			}
 			if err == nil || strings.Contains(err.Error(), "multiple padding extensions") {
 				emitCase(c, "dup", key, uc, err, pads, 0, true)
@@ -404,9 +415,9 @@ func runFingerprint(c *vh.Ctx, ids []tls.ClientHelloID) {
 			c.Count("fp-no-padded-capture")
 			continue
 		}
-		picks := []int{cand[len(cand)-1], cand[c.Rng.Intn(len(cand))]}
+		picks := []int{cand[c.Rng.Intn(len(cand))]}
 		if c.Tier != "quick" {
-			picks = append(picks, cand[0])
+			picks = append(picks, cand[0], cand[len(cand)-1])
 			for i := 0; i < 12; i++ {
 				picks = append(picks, cand[c.Rng.Intn(len(cand))])
 			}
@@ -449,7 +460,6 @@ func fpOne(c *vh.Ctx, id tls.ClientHelloID, s int) {
 			npad++
 			if pol, n := polOf(pe); pol != "always" || n != len(rec)-5 {
 				c.Fail(key, "FromRaw did not install AlwaysPadToLen(len(raw)-5) on the padding extension", key, fmt.Sprint(pol, " ", n), fmt.Sprint("always ", len(rec)-5))
-				return
 			}
 		}
 	}
